@@ -91,15 +91,18 @@ func (ucr *UnsignedChunkReader) Read(p []byte) (int, error) {
 			break
 		}
 		rdr := io.TeeReader(ucr.reader, ucr.hasher)
-		payload := make([]byte, chunkSize)
-		// Read and cache the payload
-		_, err = io.ReadFull(rdr, payload)
+		// Read and cache the payload. The buffer grows with the bytes that
+		// really arrive: the size announced by the chunk header is not
+		// covered by any signature and must not size an allocation
+		var buf bytes.Buffer
+		_, err = io.CopyN(&buf, rdr, chunkSize)
 		if err != nil {
 			if err == io.EOF {
 				err = io.ErrUnexpectedEOF
 			}
 			return 0, err
 		}
+		payload := buf.Bytes()
 
 		// Skip the trailing "\r\n"
 		if err := ucr.readAndSkip('\r', '\n'); err != nil {
